@@ -886,7 +886,7 @@ def is_regular(c, u, impl):
 
 def corr_subst(ck, n):
     rng = ck.rng
-    raised = changed = covered = 0
+    raised = changed = covered = covered_rm = 0
     for it in range(n):
         impl, itags = lib_impl(rng) if rng.random() < 0.3 else rand_impl(rng)
         c, htags = rand_host(rng, impl)
@@ -920,6 +920,11 @@ def corr_subst(ck, n):
                 names = ['host-wf', 'impl-wf', 'cell-no-port', 'cell-no-fork', 'keepsAll', 'implOK']
                 failed = [nm for nm, v in zip(names, hyp) if v != '1']
                 semtag = 'sem-hyp:covered' if not failed else 'sem-hyp:uncovered:' + failed[0]
+                if failed == ['keepsAll'] and len(hyp) > 9 and hyp[8] == '1':
+                    # theorem substitute_sem_removing: dangling logic removed; result well-formed up to trailing None
+                    semtag = 'sem-hyp:covered-removing'; covered_rm += 1
+                    if hyp[9] != '1':
+                        ck.broken_tie('substitute_sem_removing: wfNoTrail of the result', f'wfNoTrail(model result) = {hyp[9]}', inp={'request': req})
                 if not failed:
                     covered += 1
                     rwf = common.run_driver([f'xform wf {names_arg(c)} {circ.dump_net(c)}'])[0]
@@ -934,6 +939,7 @@ def corr_subst(ck, n):
     ck.extra['corr_subst_raised'] = raised
     ck.extra['corr_subst_with_removed_nodes'] = changed
     ck.extra['corr_subst_in_hypotheses_of_substitute_sem'] = covered
+    ck.extra['corr_subst_in_hypotheses_of_substitute_sem_removing'] = covered_rm
 
 
 def corr_resolve(ck, n):
